@@ -8,6 +8,7 @@ from .c12 import rule_pool_guard
 from .c13 import rule_buffer
 from .c14 import rule_frame_kind_dispatch, rule_casts, rule_permit_before_buffer
 from .c16 import rule_replica_caches
+from .c06 import rule_dispatch_and_errors
 
 RULES = [
     # Signers::weight / bit operations assert equal lengths: every verify path checks signers.len() == schedule.len() first
@@ -25,4 +26,6 @@ RULES = [
     # "never buffers more than its configured limits": every frame the mux queues for a stream (DATA and OPEN/CLOSE)
     # holds a read_frame_count permit, DATA additionally read_buffer_size permits of its size
     ("C14.1", rule_permit_before_buffer),
+    # "either processes it or rejects it": a rejected consensus message must not end the replica task (the node would shut down)
+    ("C06.9", rule_dispatch_and_errors),
 ]
